@@ -74,7 +74,129 @@ fn one<T: Real>(kind: Kind, n: usize, dir: FftDirection, rounds: usize, rng: &mu
     }
 }
 
+/// cold start: the very first calls on a freshly built instance are concurrent (catches lazily initialised state)
+fn cold_start<T: Real>(kind: Kind, n: usize, dir: FftDirection, rng: &mut Rng, rep: &mut Report) {
+    let tag = format!("cold-start {}/{}/n={}/{}", kind.name(), T::NAME, n, dir_name(dir));
+    const THREADS: usize = 16;
+    let data = random_vec::<T>(rng, n);
+    // reference from a *different* fresh instance, used sequentially
+    let expect = match catch(|| {
+        let f = AnyPlanner::<T>::new(kind).expect("planner unavailable").plan(n, dir);
+        run_entry(&f, 0, &data, cx(0.0, 0.0))
+    }) {
+        Ok(e) => e,
+        Err(e) => {
+            rep.fail(format!("plan-panic {}", tag), e);
+            return;
+        }
+    };
+    for _rep in 0..4 {
+        let fft: Arc<dyn Fft<T>> = AnyPlanner::<T>::new(kind).unwrap().plan(n, dir);
+        let barrier = Arc::new(Barrier::new(THREADS));
+        let oks: Vec<bool> = std::thread::scope(|sc| {
+            let hs: Vec<_> = (0..THREADS)
+                .map(|t| {
+                    let fft = Arc::clone(&fft);
+                    let barrier = Arc::clone(&barrier);
+                    let data = &data;
+                    let expect = &expect;
+                    sc.spawn(move || {
+                        barrier.wait();
+                        let out = run_entry(&fft, t % 3, data, Complex::new(T::nan(), T::nan()));
+                        same_bits(&out, expect)
+                    })
+                })
+                .collect();
+            hs.into_iter().map(|h| h.join().unwrap_or(false)).collect()
+        });
+        rep.evaluations += THREADS as u64;
+        rep.nontrivial += THREADS as u64;
+        let bad = oks.iter().filter(|b| !**b).count();
+        if bad > 0 {
+            rep.fail(tag.clone(), format!("{} of {} concurrent FIRST calls on a fresh instance differ bitwise from an isolated call", bad, THREADS));
+            return;
+        }
+    }
+}
+
+/// Worker threads that exist before any planner is created in this process. Results they compute on a shared instance
+/// must have the same bits as the planning thread's, also on inputs with subnormal values (per-thread floating-point
+/// state set as a side effect of planning must not leak into results).
+pub struct Workers<T: Real> {
+    job_txs: Vec<std::sync::mpsc::Sender<(Arc<dyn Fft<T>>, Vec<Complex<T>>)>>,
+    rx_res: std::sync::mpsc::Receiver<Vec<Complex<T>>>,
+    handles: Vec<std::thread::JoinHandle<()>>,
+}
+impl<T: Real> Workers<T> {
+    pub fn spawn(count: usize) -> Self {
+        use std::sync::mpsc;
+        let (tx_res, rx_res) = mpsc::channel::<Vec<Complex<T>>>();
+        let mut job_txs = vec![];
+        let mut handles = vec![];
+        for _ in 0..count {
+            let (tx, rx) = mpsc::channel::<(Arc<dyn Fft<T>>, Vec<Complex<T>>)>();
+            let tx_res = tx_res.clone();
+            job_txs.push(tx);
+            handles.push(std::thread::spawn(move || {
+                while let Ok((fft, data)) = rx.recv() {
+                    let mut b = data.clone();
+                    fft.process(&mut b);
+                    let _ = tx_res.send(b);
+                }
+            }));
+        }
+        Workers { job_txs, rx_res, handles }
+    }
+    fn finish(self) {
+        drop(self.job_txs);
+        for h in self.handles {
+            let _ = h.join();
+        }
+    }
+}
+
+fn preexisting_workers<T: Real>(w: Workers<T>, rng: &mut Rng, rep: &mut Report) {
+    for &n in &[8usize, 64, 97, 360, 1009] {
+        for kind in avail() {
+            let dir = if rng.below(2) == 0 { FftDirection::Forward } else { FftDirection::Inverse };
+            let tag = format!("pre-existing-worker {}/{}/n={}/{}", kind.name(), T::NAME, n, dir_name(dir));
+            // planner and instance are created on THIS thread; the workers were spawned before any planner existed
+            let fft = match catch(|| AnyPlanner::<T>::new(kind).unwrap().plan(n, dir)) {
+                Ok(f) => f,
+                Err(e) => {
+                    rep.fail(format!("plan-panic {}", tag), e);
+                    continue;
+                }
+            };
+            for class in 0..2 {
+                let data: Vec<Complex<T>> = if class == 0 { random_vec::<T>(rng, n) } else { (0..n).map(|_| Complex::new(T::subnormal(rng.next() as u32), T::subnormal(rng.next() as u32))).collect() };
+                let mut here = data.clone();
+                fft.process(&mut here);
+                for tx in &w.job_txs {
+                    tx.send((Arc::clone(&fft), data.clone())).unwrap();
+                }
+                for _ in 0..w.job_txs.len() {
+                    rep.evaluations += 1;
+                    rep.nontrivial += 1;
+                    match w.rx_res.recv_timeout(std::time::Duration::from_secs(60)) {
+                        Ok(out) => {
+                            if !same_bits(&out, &here) {
+                                rep.fail(format!("{} {}", tag, if class == 0 { "normal-input" } else { "subnormal-input" }), "a thread that existed before any planner was created gets different bits than the planning thread".into());
+                            }
+                        }
+                        Err(_) => rep.fail(format!("{} worker-timeout", tag), "worker did not answer".into()),
+                    }
+                }
+            }
+        }
+    }
+    w.finish();
+}
+
 pub fn run(args: &[String]) {
+    // FIRST thing in this process: the worker threads (nothing has touched a planner yet, not even `avail()`)
+    let w32 = Workers::<f32>::spawn(4);
+    let w64 = Workers::<f64>::spawn(4);
     let count: usize = args[0].parse().unwrap();
     let rounds: usize = args[1].parse().unwrap();
     let maxn: usize = args[2].parse().unwrap();
@@ -91,6 +213,17 @@ pub fn run(args: &[String]) {
             one::<f64>(kind, n, dir, rounds, &mut rng, &mut rep);
         }
     }
+    // cold starts on lengths that go through every algorithm family
+    for (i, &n) in [2usize, 37, 59, 74, 97, 128, 210, 407, 719, 1009, 1024, 1031].iter().enumerate() {
+        for kind in avail() {
+            let dir = if (i + kind as usize) % 2 == 0 { FftDirection::Forward } else { FftDirection::Inverse };
+            cold_start::<f32>(kind, n, dir, &mut rng, &mut rep);
+            cold_start::<f64>(kind, n, dir, &mut rng, &mut rep);
+        }
+    }
+    preexisting_workers::<f32>(w32, &mut rng, &mut rep);
+    preexisting_workers::<f64>(w64, &mut rng, &mut rep);
+    rep.sample("cold start: 16 threads make the first calls on a fresh instance; pre-existing workers: threads spawned before the planner existed, normal and subnormal inputs".to_string());
     rep.sample(format!("{} shared instances (planner/type rotating, n up to {}), 16 threads x {} rounds, entry point and 1-4 chunks random per call, NaN-filled scratch", count, maxn, rounds));
     rep.print("S11-threads", "one case per (instance, thread, round): concurrent result bitwise equal to the sequential one; non-trivial = n >= 2");
 }
